@@ -128,6 +128,9 @@ def gen_path(t: Tape) -> dict:
     if t.flag(80, "p.dslash"):
         rel = rel.replace("/", "//", 1)
     absolute = bool(t.choose(2, "p.abs"))
+    if rel.startswith("/"):
+        # an empty first segment would make a 'relative' string absolute on the REAL machine: always anchor it in the sandbox
+        absolute = True
     return {"rel": rel, "absolute": absolute}
 
 
@@ -242,6 +245,8 @@ class Recorder:
 
     def run(self, fn, cwd: str | None = None, home: str | None = None):
         sim = seam.Simulation(self.root, Tape(values=[]), seam.Knobs(step_cap=10 ** 8), record_unscoped=True)
+        sim.claims_outside = True
+        sim._has_links = True
         resolved = {}
 
         def before_op(sim_, a, op, kind):
@@ -386,6 +391,10 @@ def run_path_case(case: dict, stats: Stats | None = None) -> dict:
         if d:
             V("R1.changed", f"classifier says refuse ({cl['why']}) but the tree changed: {d[:5]}")
     # ---- R2: confinement, for every call
+    if sim.outside_mutations:
+        if path_str.startswith("/") and not path_str.startswith(root + "/"):
+            raise seam.HarnessError(f"generated path {path_str!r} is outside the run root")
+        V("R2.outside-root", f"tried to change files outside every sandbox root (refused by the simulator): {sim.outside_mutations[:3]}")
     for n, lp, rp, _ in eff:
         if under(rp, out_root) or under(rp, home_root):
             V("R2.outside", f"operation {n} took effect on {_rel(rp, root)} (via {_rel(lp, root)}), outside the sandbox")
